@@ -298,8 +298,8 @@ theorem lexStrict_wrapStr_renderToks (ts : List Token) (h : ListOK ts) :
 /-- `AdvancedHTMLParser.feed(contents)` on the strict sub-language (`none` = the text is outside it):
     `HTMLParser.feed(contents)`; on MultipleRootNodeException `reset()` and
     `HTMLParser.feed(addStartTag(contents, '<xxxblank>') + '</xxxblank>')`.
-    (`stripIEConditionals` is outside the model — trusted base, DESIGN §6: the statement is about texts
-    without IE conditional comments, on which it is the identity.) -/
+    (`stripIEConditionals`, which `parseStr` applies first, is modelled in `Model/StripIE.lean`; `parseText := feedText ∘ stripIE`
+    and `parseText_eq_spec` are in `Lemmas/StripIERender.lean` / `Props/C02.lean`.) -/
 def feedText (s : Str) : Option FeedResult :=
   match lexStrict s with
   | none => none
